@@ -79,18 +79,16 @@ CLAIMED["C05"] = dict(
     text="Proof (Lean 4) about the handle state machine SfModel.Handle (the 16 read/write wrappers, guards in order, end-of-data clamp, zero fill, position "
          "bookkeeping) tied to the code two ways: (A) byte-exact transcript correspondence of seeded random histories on every RAW/AU/WAV encoding; (B) the "
          "count/bounds/position contract re-evaluated on the implementation's own transcripts for every writable (major, subtype, endian) incl. all block codecs, "
-         "against one sequential reference read, with exact-size ASan-guarded buffers. The predicate that decides VIOLATION on an implementation transcript is the Lean definition Sf.Abs.holdsOn (lean/SfModel/Abs.lean: L0 abstract handle model of any container, reference stream as a parameter) evaluated by the driver `sfmodel abs`; SfProps/C05Abs.lean proves what an accepted transcript means and that contract-satisfying answers are accepted; the former Python predicate runs beside it as a cross-check (evidence: abs_predicate). "
+         "against one sequential reference read, with exact-size ASan-guarded buffers. The predicate that decides VIOLATION on an implementation transcript is the Lean definition Sf.Abs.holdsOn (lean/SfModel/Abs.lean: L0 abstract handle model of any container, reference stream as a parameter) evaluated by the driver `sfmodel abs`; SfProps/C05Abs.lean proves what an accepted transcript means and that contract-satisfying answers are accepted; the former Python predicate runs beside it as a cross-check (evidence: abs_predicate). The predicate is SOUND against the concrete handle model by a machine-checked bridge (SfProps/C05Bridge.lean `handle_run_accepted`: the transcript of every operation list of Sf.Handle from every invariant state, RAW/AU/WAV, every sample-granular codec, is accepted by holdsOn with ref := the decoded data region; induction over runOps; C08Bridge `accepted_rdwr_refines`: every accepted RDWR transcript, whatever produced it, refines the abstract file). "
          "Codecs that used to be opaque are now modelled bit-exactly: G.721/G.723 (SfModel/G72x.lean, G72xFile.lean: g72x_read_contract for every request size and position; codec-core memory safety proved — g72x_state_inv, g72x_encode_safe / g72x_decode_safe: every table index and shift count in range for every reachable state; tied by vlib/g72x.py on every cell of every read buffer), GSM 06.10 (gsm_read_call_contract / gsm_read_at_end, SfProps/C06Gsm.lean), NMS ADPCM (see below). Partial: ALAC is still opaque and covered by (B) only.",
-         "against one sequential reference read, with exact-size ASan-guarded buffers. Partial: opaque codecs are covered by (B) only. The predicate that decides VIOLATION on an implementation transcript is the Lean definition Sf.Abs.holdsOn (lean/SfModel/Abs.lean: L0 abstract handle model of any container, reference stream as a parameter) evaluated by the driver `sfmodel abs`; SfProps/C05Abs.lean proves what an accepted transcript means and that contract-satisfying answers are accepted; the former Python predicate runs beside it as a cross-check (evidence: abs_predicate). The predicate is SOUND against the concrete handle model by a machine-checked bridge (SfProps/C05Bridge.lean `handle_run_accepted`: the transcript of every operation list of Sf.Handle from every invariant state, RAW/AU/WAV, every sample-granular codec, is accepted by holdsOn with ref := the decoded data region; induction over runOps).",
     technique="Lean 4 theorems over a hand-written handle model + differential correspondence + contract evaluation on implementation transcripts",
     design_ref="DESIGN.md §7 C05")
 CLAIMED["C06"] = dict(
     text="Proof (Lean 4) about sf_seek's whence arithmetic and the read path of SfModel.Handle (seek result is the requested frame or -1 with error; reads depend on "
          "position only); correspondence (A) byte-exact on RAW/AU/WAV histories, (B) on every writable format incl. IMA/MS ADPCM, GSM, PAF24, SDS, ALAC, DWVW: "
          "seeded seek/read histories must deliver slices of the one-pass reference stream and position probes must agree. Handles reporting SF_INFO.seekable = 0 "
-         "are required to refuse every seek. The predicate that decides VIOLATION on an implementation transcript is the Lean definition Sf.Abs.holdsOn (lean/SfModel/Abs.lean: L0 abstract handle model of any container, reference stream as a parameter) evaluated by the driver `sfmodel abs`; SfProps/C06Abs.lean proves what an accepted transcript means and that contract-satisfying answers are accepted; the former Python predicate runs beside it as a cross-check (evidence: abs_predicate). "
+         "are required to refuse every seek. The predicate that decides VIOLATION on an implementation transcript is the Lean definition Sf.Abs.holdsOn (lean/SfModel/Abs.lean: L0 abstract handle model of any container, reference stream as a parameter) evaluated by the driver `sfmodel abs`; SfProps/C06Abs.lean proves what an accepted transcript means and that contract-satisfying answers are accepted; the former Python predicate runs beside it as a cross-check (evidence: abs_predicate). The predicate is SOUND against the concrete handle model by a machine-checked bridge (SfProps/C05Bridge.lean `handle_run_accepted`: the transcript of every operation list of Sf.Handle from every invariant state, RAW/AU/WAV, every sample-granular codec, is accepted by holdsOn with ref := the decoded data region; induction over runOps; C08Bridge `accepted_rdwr_refines`: every accepted RDWR transcript, whatever produced it, refines the abstract file). "
          "G.721/G.723: g72x_read_partition (any sequence of requests of any types = one slice of the decoded stream, a function of the data bytes), g72x_seek_refused, decoder model bit-exact on adversarial data. GSM 06.10 is modelled bit-exactly (SfModel/Gsm.lean, GsmFile.lean; SfProps/C06Gsm.lean: decoder memory safety for every frame, reads of any partition / caller type deliver the sequential decode, sf_seek always refused; vlib/gsm.py compares every decoded sample with the model). Partial: ALAC's seek internals are opaque (checked by B).",
-         "are required to refuse every seek. Partial: block-codec seek internals are opaque (checked by B). The predicate that decides VIOLATION on an implementation transcript is the Lean definition Sf.Abs.holdsOn (lean/SfModel/Abs.lean: L0 abstract handle model of any container, reference stream as a parameter) evaluated by the driver `sfmodel abs`; SfProps/C06Abs.lean proves what an accepted transcript means and that contract-satisfying answers are accepted; the former Python predicate runs beside it as a cross-check (evidence: abs_predicate). The predicate is SOUND against the concrete handle model by a machine-checked bridge (SfProps/C05Bridge.lean `handle_run_accepted`: the transcript of every operation list of Sf.Handle from every invariant state, RAW/AU/WAV, every sample-granular codec, is accepted by holdsOn with ref := the decoded data region; induction over runOps).",
     technique="Lean 4 theorems over a hand-written handle model + differential correspondence + contract evaluation on implementation transcripts",
     design_ref="DESIGN.md §7 C06")
 
@@ -121,15 +119,13 @@ CLAIMED["C04"] = dict(
          "rate quantiser per container) is written from the format definitions, not measured. Round 4 repairs, each with the model following the repaired code, a full-strength theorem "
          "and the old rule's failure as an _old_rule theorem: WAV/GSM 6.10 pad byte (C04GsmPad: wav_gsm_reopen_frames; C04Gsm over the bit-exact GSM wrapper model), SVX/MPC2K 16-bit rate saturates "
          "(svx_rate, mpc2k_reopen_info), IRCAM rate cap and big-endian channel guess (ircam_reopen_info for every accepted configuration), PVF 11-byte header (pvf_reopen_info outside the 11-byte-file class only), "
-         "XI header rewritten at close. Partial: header bytes of MAT5, SDS, SD2 are not modelled (covered by B); ALAC is opaque.",
-         "rate quantiser per container) is written from the format definitions, not measured. Partial: header bytes of the other 17 containers are not modelled (covered by B)." + _AW % "C04",
+         "XI header rewritten at close. Partial: header bytes of MAT5, SDS, SD2 are not modelled (covered by B); ALAC is opaque." + _AW % "C04",
     technique="Lean 4 theorems over hand-written container models + differential correspondence (file bytes, parser verdicts) + predicate on implementation transcripts",
     design_ref="DESIGN.md §7 C04")
 CLAIMED["C07"] = dict(
     text="Proof (Lean 4): kernel_append, write_partition_store (two calls = one call, every field and byte), file_bytes_fn / file_bytes_partition (closed bytes are a function of "
          "open parameters, concatenated samples and PEAK state only; header updates and call variants do not matter) for RAW/AU/WAV, and since the repairs of KF-C18-DOUBLE-NARROW / KF-C18-STAGING-MISALIGN also for "
-         "PEAK-carrying WAV float/double with finite samples (file_bytes_partition_finite); " + _WR + "The clock is pinned by the harness. G.721/G.723: g72x_write_partition (the generic block-writer theorem instantiated with the REAL encoder, predictor state carried across blocks; all caller types), data region byte-exact against the model. GSM 06.10: gsm_file_bytes_partition (SfProps/C07Gsm.lean) over the bit-exact encoder model SfModel/GsmEnc.lean, tied byte for byte by vlib/gsm.py. Partial: the ALAC and IMA/MS ADPCM encoders are covered by (B).",
-         "PEAK-carrying WAV float/double with finite samples (file_bytes_partition_finite); " + _WR + "The clock is pinned by the harness. Partial: block encoders are covered by (B)." + _AW % "C07",
+         "PEAK-carrying WAV float/double with finite samples (file_bytes_partition_finite); " + _WR + "The clock is pinned by the harness. G.721/G.723: g72x_write_partition (the generic block-writer theorem instantiated with the REAL encoder, predictor state carried across blocks; all caller types), data region byte-exact against the model. GSM 06.10: gsm_file_bytes_partition (SfProps/C07Gsm.lean) over the bit-exact encoder model SfModel/GsmEnc.lean, tied byte for byte by vlib/gsm.py. Partial: the ALAC and IMA/MS ADPCM encoders are covered by (B)." + _AW % "C07",
     technique="Lean 4 theorems over a hand-written handle model + differential correspondence + byte comparison of partitions on the implementation",
     design_ref="DESIGN.md §7 C07")
 CLAIMED["C11"] = dict(
